@@ -4,6 +4,7 @@ import (
 	"fmt"
 	"regexp"
 	"strings"
+	"time"
 
 	"oss.terrastruct.com/d2/d2graph"
 
@@ -27,8 +28,6 @@ import (
 // engines; they are generated in a separate sub-workload ("unsupported") whose violations carry
 // the suffix `:engine-undeclared-feature` so that they are triaged separately — an engine that
 // *errors* on a feature it does not declare is documented behaviour of the CLI, a *panic* is not.
-
-type c17Obs struct{}
 
 func init() {
 	run.Register(&run.Check{
@@ -179,6 +178,69 @@ func c17EdgeIDTrigger(g *d2graph.Graph) bool {
 	return hit
 }
 
+// c17SpanWithoutMessage: a sequence diagram contains a span (descendant of an actor that is
+// neither note nor group) with no children at which no message starts or ends. It arises when
+// an edge path runs through a span and ends in a key that the compiler resolves to an actor
+// (`s -> k.p.k`: the last k is the actor k, k.p is left behind).
+func c17SpanWithoutMessage(g *d2graph.Graph) bool {
+	hit := false
+	c17Walk(g, func(g *d2graph.Graph) {
+		for _, o := range g.Objects {
+			if !layInSequence(o) || o.Parent == nil || o.Parent.IsSequenceDiagram() || len(o.ChildrenArray) > 0 {
+				continue
+			}
+			if o.IsSequenceDiagramNote() || o.IsSequenceDiagramGroup() {
+				continue
+			}
+			used := false
+			for _, e := range g.Edges {
+				if e.Src == o || e.Dst == o {
+					used = true
+				}
+			}
+			if !used {
+				hit = true
+			}
+		}
+	})
+	return hit
+}
+
+// c17ActorCopyInGroup: inside a sequence diagram an edge endpoint below a group has the id
+// of a top-level actor but is a different object, and the id needs quoting (hoistActor's
+// DeleteField(f.Name.ScalarString()) re-parses the raw name as a key path).
+func c17ActorCopyInGroup(g *d2graph.Graph) bool {
+	hit := false
+	c17Walk(g, func(g *d2graph.Graph) {
+		for _, e := range g.Edges {
+			for _, o := range []*d2graph.Object{e.Src, e.Dst} {
+				if o == nil || !layInSequence(o) {
+					continue
+				}
+				sd := o.OuterSequenceDiagram()
+				if sd == nil || o.Parent == sd {
+					continue
+				}
+				for _, a := range sd.ChildrenArray {
+					if a != o && strings.EqualFold(a.ID, o.ID) && strings.ContainsAny(o.ID, "'\".") {
+						hit = true
+					}
+				}
+			}
+		}
+	})
+	return hit
+}
+
+func c17Walk(g *d2graph.Graph, f func(*d2graph.Graph)) {
+	f(g)
+	for _, l := range [][]*d2graph.Graph{g.Layers, g.Scenarios, g.Steps} {
+		for _, s := range l {
+			c17Walk(s, f)
+		}
+	}
+}
+
 func c17ObjClass(o *d2graph.Object) string {
 	switch {
 	case layInSequence(o):
@@ -212,13 +274,21 @@ func execC17(c run.Case) (res run.Result) {
 	}
 	nObj := len(g0.Objects)
 
+	t0 := time.Now()
 	d, g, err := layCompile(in.Engine, in.Text)
+	res.Add("ms_layout_"+in.Engine+"_"+in.Src, int(time.Since(t0)/time.Millisecond))
 	if err != nil {
 		class := c17ErrClass(err.Error())
-		if in.Engine == "dagre" && c17EdgeIDTrigger(g0) && (strings.Contains(err.Error(), "SyntaxError") || strings.Contains(err.Error(), "ReferenceError") || strings.Contains(err.Error(), "TypeError")) {
+		scope := in.Engine // d2sequence runs before (and independently of) the core engine
+		switch {
+		case in.Engine == "dagre" && c17EdgeIDTrigger(g0) && (strings.Contains(err.Error(), "SyntaxError") || strings.Contains(err.Error(), "ReferenceError") || strings.Contains(err.Error(), "TypeError")):
 			class = "edge-id-with-backtick-or-dollar-brace-in-js-template-literal"
+		case strings.Contains(err.Error(), "invalid position with infinity value") && c17SpanWithoutMessage(g0):
+			scope, class = "sequence", "infinite-position:span-without-message-or-child"
+		case strings.Contains(err.Error(), "could not find center of") && c17ActorCopyInGroup(g0):
+			scope, class = "sequence", "actor-not-found:quoted-actor-id-referenced-in-nested-edge-group"
 		}
-		res.Viol("C17.layout-error", "C17.layout-error:"+in.Engine+":"+class+suffix,
+		res.Viol("C17.layout-error", "C17.layout-error:"+scope+":"+class+suffix,
 			fmt.Sprintf("engine=%s: program compiles but the pipeline returned an error: %v\n--- text:\n%s", in.Engine, err, in.Text))
 		return
 	}
